@@ -428,19 +428,31 @@ func copyTree(src, dst string) error {
 }
 
 // idOf maps a delivered entry to the number of the appended entry it equals in type, key, value and sequence number
-// (entries written after the recovery: type, key, value - their numbers are chosen by the engine), 0 if none.
-func (l *wfLog) idOf(e *wal.Entry, withPost bool) int {
+// (entries written after the recovery: type, key, value - their numbers are chosen by the engine), 0 if none.  Should
+// several appended entries be equal in all four (the same delete twice in one batch), the first one behind `after`
+// (the previously delivered entry) is meant.
+func (l *wfLog) idOf(e *wal.Entry, withPost bool, after int) int {
+	first := 0
+	match := func(x *walEnt, seq bool) bool {
+		return x.op == e.Type && (!seq || x.seq == e.SequenceNumber) && bytes.Equal(x.key, e.Key) && bytes.Equal(x.val, e.Value)
+	}
 	for i := range l.ents {
-		x := &l.ents[i]
-		if x.op == e.Type && x.seq == e.SequenceNumber && bytes.Equal(x.key, e.Key) && bytes.Equal(x.val, e.Value) {
-			return x.id
+		if match(&l.ents[i], true) {
+			if l.ents[i].id > after {
+				return l.ents[i].id
+			}
+			if first == 0 {
+				first = l.ents[i].id
+			}
 		}
+	}
+	if first != 0 {
+		return first
 	}
 	if withPost {
 		for i := range l.postEnt {
-			x := &l.postEnt[i]
-			if x.op == e.Type && bytes.Equal(x.key, e.Key) && bytes.Equal(x.val, e.Value) {
-				return x.id
+			if match(&l.postEnt[i], false) {
+				return l.postEnt[i].id
 			}
 		}
 	}
@@ -451,9 +463,13 @@ func (l *wfLog) delivered(dir string, withPost bool) ([]int, []string, string) {
 	ids := []int{}
 	var unknown []string
 	es, err := replayDir(filepath.Join(dir, "wal"))
+	last := 0
 	for _, e := range es {
-		id := l.idOf(e, withPost)
+		id := l.idOf(e, withPost, last)
 		ids = append(ids, id)
+		if id != 0 {
+			last = id
+		}
 		if id == 0 && len(unknown) < 3 {
 			unknown = append(unknown, describeEntText(e))
 		}
@@ -662,6 +678,7 @@ func walFaultCmd(args []string) int {
 	}
 	if *worker == 0 || *only >= 0 {
 		o.Put(l.logLine())
+		o.w.Flush() // the code under test may end the process
 	}
 	for j, ft := range plan {
 		if *only >= 0 && j != *only {
